@@ -8,7 +8,7 @@ sched.cov_register(__name__.split('.')[-1])      # dev-only: VERIF_COVERAGE=1
 ID = 'C10'
 COQ_MODEL = 'model.TsProps'
 COQ_CORR = 'corr_C10'
-N_QUICK = 1400
+N_QUICK = 1300
 N_THOROUGH = 6000
 THOROUGH_EXHAUSTIVE = False
 VM_CASES = 30
@@ -57,6 +57,12 @@ def _call(app, tok, script, **kw):
 def _arr(napps, calls, default=False, start=0, switches=()):
     return dict(kind='arr', napps=napps, default=default, calls=calls, start=start,
                 switches=[list(s) for s in switches])
+
+
+# applications built, given routes and used on several threads at once: every single pre-emption is tried on every run
+BUILD_SCENARIOS = [
+    dict(napps=1, default=False, calls=[dict(construct=True, routes=True, tok='N0'), dict(construct=True, routes=True, tok='N1')]),
+]
 
 
 def corpus():
@@ -140,6 +146,14 @@ def corpus():
         _arr(2, [_call(1, 'tA', [['see'], ['new_app', 'errors_map422', 'setup'], ['see'],
                                  ['call', _call(0, 'tB', [], route='nope404')], ['see'],
                                  ['call', _call(0, 'tD', [['see']], method='HEAD')], ['ret', 'gen_bytes']])]),
+        # two applications are built and given routes on two threads (F40: the rule parser was one per process)
+        _arr(2, [dict(construct=True, routes=True, tok='N0'), dict(construct=True, routes=True, tok='N1'),
+                 _call(0, 'tE', [['see'], ['new_app', 'routes'], ['see']])], start=0, switches=[[262, 1], [400, 2]]),
+        dict(kind='batch', build=0, preempt=1),
+        # static_file() in a nested application while the outer (default) application's request is conditional
+        _arr(2, [_call(0, 'tA', [['see'], ['call', _call(1, 'tB', [['ret', 'static']])], ['see']], conditional=True)],
+             default=True),
+        _arr(2, [_call(0, 'tA', [['ret', 'static']])], default=True),
         # redirect() works for the default application ...
         _arr(2, [_call(0, 'tA', [['see'], ['redirect', '?to=tA']])], default=True),
         # ... and (finding C10-redirect-default-app) reads the default application's request from any other one
@@ -276,8 +290,8 @@ def _gen_script(rng, tok, napps, depth, counter, busy=(), default=False):
             script.append(['copy'])
             script.append(['see'])
         elif r < 0.91:
-            na = ['new_app'] + ([rng.choice(CFG_KINDS)] if rng.random() < 0.6 else [])
-            if len(na) == 2 and rng.random() < 0.4:
+            na = ['new_app'] + ([rng.choice(CFG_KINDS + ['routes', 'routes'])] if rng.random() < 0.7 else [])
+            if len(na) == 2 and na[1] != 'routes' and rng.random() < 0.4:
                 na.append('setup')                # configured through Ombott.setup() after construction
             script.append(na)
             script.append(['see'])
@@ -297,6 +311,8 @@ def _gen_script(rng, tok, napps, depth, counter, busy=(), default=False):
         script.append(['gen', rng.randrange(1, 4)])
     elif r < 0.38:
         script.append(['redirect', '?to=' + tok])
+    elif r < 0.42:
+        script.append(['ret', 'static'])
     else:
         script.append(['see'])
     return script
@@ -310,7 +326,10 @@ def _gen_arr(rng):
     calls = []
     for i in range(nthreads):
         if nthreads > 1 and rng.random() < 0.15:
-            calls.append(dict(construct=True, cfg=rng.choice(CFG_KINDS)) if rng.random() < 0.6 else dict(construct=True))
+            c = dict(construct=True, cfg=rng.choice(CFG_KINDS)) if rng.random() < 0.5 else dict(construct=True)
+            if rng.random() < 0.6:
+                c.update(routes=True, tok='N%d' % i)      # ... and gives it routes and uses it
+            calls.append(c)
             continue
         tok = 't%s' % 'ACE'[i]
         kw = {}
@@ -320,8 +339,12 @@ def _gen_arr(rng):
             kw['cookie'] = 'c=%sc' % tok
         if rng.random() < 0.3:
             kw['readonly'] = True         # the (legal) 'ombott.request.readonly' flag in the environ
+        if rng.random() < 0.25:
+            kw['conditional'] = True      # If-Modified-Since / Range on this request (they matter to static_file only)
         j = rng.randrange(napps)
         script = _gen_script(rng, tok, napps, 0, [0], (j,), default)
+        if kw.get('conditional') and script[-1] == ['ret', 'static']:
+            script[-1] = ['see']
         if kw.get('readonly'):
             script = [a[:3] if a[0] == 'call_copy' else a for a in script]    # no input replacement on a read-only environ
         if rng.random() < 0.2:
@@ -383,6 +406,8 @@ def run_impl(case):
         return dict(kind=case['kind'], tie='ts_props names differ from the model: %s' % got)
     if case['kind'] == 'ops':
         return dict(kind='ops', outs=sched.run_ops(case['cmds']))
+    if case['kind'] == 'batch':
+        return sched.run_batch(case, dict(kind='arr', **BUILD_SCENARIOS[case['build']]))
     obs = sched.run_arrangement(case)
     obs['kind'] = 'arr'
     return obs
@@ -391,6 +416,8 @@ def run_impl(case):
 def encode(case):
     if case['kind'] == 'ops':
         return sched.encode_ops(case['cmds'])
+    if case['kind'] == 'batch':
+        return sched.encode_ops([])
     # the traffic recorded on the thread-local stores while the arrangement ran (run_impl ran before)
     return sched.encode_ops(sched.trace_cmds(case) or [])
 
@@ -398,12 +425,16 @@ def encode(case):
 def decode(out, case):
     if case['kind'] == 'ops':
         return dict(kind='ops', outs=sched.decode_ops(out, case['cmds']))
+    if case['kind'] == 'batch':
+        return dict(kind='batch', outs=sched.decode_ops(out, []))
     return dict(kind='arr', outs=sched.decode_ops(out, sched.trace_cmds(case) or []))
 
 
 def project(obs, case):
     if case['kind'] == 'ops':
         return obs
+    if case['kind'] == 'batch':
+        return dict(kind='batch', outs=[])
     # what every access to the thread-local stores returned while the real requests were served, to be
     # predicted by the model from the recorded sequence of accesses
     return dict(kind='arr', outs=obs.get('trace_outs', []))
@@ -453,10 +484,17 @@ def oracle(case, obs):
         return 'harness escape: %s %s' % (obs['escaped'], obs.get('msg'))
     if case['kind'] == 'ops':
         return ops_failure(case['cmds'], obs['outs'])
+    if case['kind'] == 'batch':
+        if obs.get('failures'):
+            st, sw, f = obs['failures'][0]
+            return 'schedule start=%s switches=%s: %s' % (st, sw, f)
+        return None if obs.get('ran') else 'batch ran no schedule'
     return sched.arrangement_failure(case, obs)
 
 
 def nontrivial(case, obs):
+    if case['kind'] == 'batch':
+        return obs.get('ran', 0) > 0
     if case['kind'] == 'ops':
         inited = {}
         for cmd in case['cmds']:
@@ -496,6 +534,8 @@ def key(case):
 
 
 def classify(case, obs):
+    if case['kind'] == 'batch':
+        return 'batch/build%d/preempt=%d/schedules=%s' % (case['build'], case['preempt'], obs.get('ran'))
     if case['kind'] == 'ops':
         nt = len({c[0] for c in case['cmds']})
         errs = sum(1 for o in obs.get('outs', []) if o and o[0] in ('attr', 'key', 'bad'))
@@ -523,6 +563,11 @@ def classify(case, obs):
 
 
 def shrink(case):
+    if case['kind'] == 'batch':
+        c = sched.BATCH_FAIL.get(json.dumps(case, sort_keys=True))
+        if c:
+            yield c
+        return
     if case['kind'] == 'ops':
         cmds = case['cmds']
         for i in range(len(cmds)):
@@ -569,6 +614,24 @@ def _redirect_outside_default_app(case, what, m):
     return any(walk(c) for c in case['calls'])
 
 
+def _static_outside_default_app(case, what, m):
+    """the failure is about static_file() and the case calls it from a handler of an application that is not the
+    module-level default application"""
+    if case.get('kind') != 'arr' or 'static_file()' not in str(what):
+        return False
+
+    def walk(c):
+        if c.get('construct'):
+            return False
+        for a in c['script']:
+            if a == ['ret', 'static'] and not (case.get('default') and c['app'] == 0):
+                return True
+            if a[0] == 'call' and walk(a[1]):
+                return True
+        return False
+    return any(walk(c) for c in case['calls'])
+
+
 def _listener_in_handler(case, what, m):
     """the failure is about what a listener registered with request.on() inside a handler heard, and the case has
     such a handler next to another thread"""
@@ -583,14 +646,98 @@ def _listener_in_handler(case, what, m):
 
 
 PREDICATES = {'redirect_outside_default_app': _redirect_outside_default_app,
-              'listener_registered_in_handler': _listener_in_handler}
+              'listener_registered_in_handler': _listener_in_handler,
+              'static_file_outside_default_app': _static_outside_default_app}
+
+# ---------------------------------------------------------------------------
+# audit tables (round 4): what of the anchored API the cases exercise, and which process-wide state they would notice
+# ---------------------------------------------------------------------------
+# "arr" = arrangement of real WSGI calls (sched.py, scripted handlers), "ops" = command sequences on real objects
+# compared with the model, "batch" = every single-pre-emption schedule of a scenario.
+
+API_SURFACE = [
+    # common_helpers.ts_props
+    ('ts_props: init_wrapper (first / repeated __init__, per thread)', 'covered by ops init_req/init_req0/new_resp/init_resp, arr (every request)'),
+    ('ts_props: fget / fset / fdel of every generated property', 'covered by ops get/set/del on all 2+5 attributes; arr store traffic replayed in the model'),
+    ('ts_props: store_name slot unset (object without __init__)', 'covered by ops on raw objects (malformed stream)'),
+    # common_helpers.HeaderDict
+    ('HeaderDict.__init__ / dict property (get, set)', 'covered by ops new_resp/hget/hset_fresh/hset_headers'),
+    ('HeaderDict.__setitem__/__getitem__/__delitem__/__contains__/__len__/__iter__/__repr__', 'covered by arr hdr, hdr_del, every see (hdr_map)'),
+    ('HeaderDict.keys/values/items/get/pop/popitem (proxy)', 'keys/values/items/get: covered by every see; pop/popitem: excluded: same proxy lambda as get (one code path, common_helpers.proxy), not used by the framework'),
+    ('HeaderDict.append (absent / single / list)', 'covered by arr hdr_append x1..3'),
+    ('HeaderDict.clear(*names) / clear()', 'covered by arr hdr_clear'),
+    ('HeaderDict.update / setdefault (str, list)', 'covered by arr hdr_update, hdr_setdefault, _cast Content-Length default'),
+    ('HeaderDict.copy (list values copied)', 'covered by arr hdr_copy, redirect (BaseResponse.copy)'),
+    ('proxy()', 'covered through HeaderDict.keys/values/items/get'),
+    ('cached_property.__get__ (instance, class access)', 'covered by Ombott._hooks in every request, type(app)._hooks in set-up'),
+    ('cached_property: AttributeError in getter -> PropertyGetterError', 'excluded: not reachable through Ombott._hooks, the only cached_property of the anchored classes'),
+    # response.py
+    ('BaseResponse.__new__/__init__ (defaults)', 'covered by ops new_resp/init_resp, arr every request'),
+    ('BaseResponse.__init__(body, status, headers dict, **more_headers)', 'covered by arr ret resp_obj/resp_raise/gen_raises_resp, abort'),
+    ('BaseResponse.status setter: int, "NNN phrase", unlisted codes, refused values', 'covered by arr status (numbers, strings, 797..), bad_status'),
+    ('BaseResponse.status_line / status_code / headerlist', 'covered by every see and every response record'),
+    ('BaseResponse.copy(cls)', 'covered by arr redirect (C10)'),
+    ('BaseResponse.set_cookie', 'covered by arr cookie; options (max_age, expires, ...) excluded: C15'),
+    ('BaseResponse.delete_cookie / charset / content_length / expires', 'excluded: C14/C15 (header values), no per-thread or per-application state of their own'),
+    ('HTTPResponse.apply (status, headers, cookies, body)', 'covered by arr abort/boom/body_read/ret resp_* and the @error handlers that look at app.response'),
+    ('Response.__slots__ (no instance dict)', 'covered by the fingerprint of non-thread-local state in every arr case'),
+    # request.py
+    ('BaseRequest.__new__/__init__(environ | None, config=)', 'covered by ops init_req/init_req0, arr every request, copy'),
+    ('BaseRequest.setup(config)', 'covered by arr new_app cfg setup (C10)'),
+    ('BaseRequest._raise (errors_map hit / miss)', 'covered by arr body_read kinds (hit), boom (miss)'),
+    ('BaseRequest._on_env_changed (every key class)', 'covered by arr req_set QUERY_STRING/HTTP_*/CONTENT_TYPE, hook_input (wsgi.input, CONTENT_LENGTH)'),
+    ('BaseRequest.on / off / emit / returned unsubscriber', 'covered by arr listen (finding C08/C10-listeners-shared)'),
+    ('BaseRequest.copy', 'covered by ops copy, arr copy / call_copy (plain, read-only environ, buffered body, hooks)'),
+    ('BaseRequest.get / keys / __iter__ / __len__ / __getitem__', 'covered by ops req_get/env_get, every see (req_map_ok)'),
+    ('BaseRequest.__setitem__ (read-only, same value, change) / __delitem__', 'covered by arr req_set (readonly refused, same value), req_del'),
+    ('BaseRequest.__getattr__ / __setattr__ (slots, ext attributes, descriptors)', 'covered by ops on raw objects, arr ext; descriptor-valued ext attributes excluded: not used by the framework'),
+    ('BaseRequest.__repr__', 'covered by every see (repr_has_path)'),
+    # ombott.py
+    ('Ombott.__init__(config dict | None)', 'covered by arr make_apps cfg (max30, debug, nocatch, domain), new_app cfg kinds, construct threads'),
+    ('Ombott.setup(config)', 'covered by arr new_app cfg setup (C10)'),
+    ('Ombott.add_hook / on (direct, decorator) / remove_hook / emit / _hooks', 'covered by make_apps set-up and every request (before/after hooks look at app.request/app.response)'),
+    ('Ombott.on_route / remove_route_hook / route hooks in Ombott.handler', 'covered by make_apps set-up, route_hook record of every /r request'),
+    ('Ombott.error(code) / error(404, rule)', 'covered by make_apps (400/403/413/418 handlers, /h partial hook), arr body_read/abort/loop418, route h404hook'),
+    ('Ombott.handler: 404, 405 (+Allow), partial 404 hook', 'covered by arr route nope404/g405/h404hook'),
+    ('Ombott._handle: undecodable path, HTTPResponse, Exception, MemoryError', 'covered by arr route badpath, abort/ret resp_raise, boom, ret raise_mem'),
+    ('Ombott._cast: every output type', 'covered by arr text, gen, ret none/file(+file_wrapper)/gen_empty/gen_blank_first/gen_bytes/gen_int/gen_raises_*/resp_obj/loop418'),
+    ('Ombott.wsgi: domain_map, HEAD / 1xx / 204 / 304, last-resort page, catchall off, debug', 'covered by arr domain, method HEAD, status 204/304, ret bad_charset with cfg debug/nocatch'),
+    ('Ombott.default_error_handler (HTML / JSON)', 'covered by arr abort/boom/body_read with and without Accept: application/json'),
+    ('Globals / default_app / module-level route, request, response', 'covered by arr default=True (C10)'),
+    ('redirect()', 'covered by arr redirect (C10; finding C10-redirect-default-app)'),
+    ('abort()', 'covered by arr abort'),
+    ('static_file() (reads Globals.request)', 'covered by arr ret static (C10; finding C10-static-file-default-app); ranges/dates themselves: C16/C17'),
+    ('config keys: catchall, debug, domain_map, app_name_header, errors_map, max_body_size, max_memfile_size, allow_x_script_name',
+     'covered: catchall, debug, domain_map+app_name_header (case cfg), errors_map, max_body_size, max_memfile_size (new_app / construct cfg); allow_x_script_name excluded: read per request from config, C-none'),
+    ('Ombott.run / server_adapters', 'excluded: no request or response state'),
+]
+
+# every piece of class-level or module-level mutable state reachable from two applications or two threads
+SHARED_STATE = [
+    ('DefaultConfig.errors_map (class level) and its pre-built HTTPError instances', 'process', 'noticed: arr body_read kinds across apps/threads + forked baseline (seeds C08-1, C08-5, C10-3, C10-6)'),
+    ('RequestConfig.errors_map = {} / DefaultConfig.domain_map = {} (class-level default dicts)', 'process', 'noticed if filled: arr new_app/construct cfg kinds then error-path requests on other apps'),
+    ('response._HTTP_STATUS_LINES / HTTP_CODES (alias of http.client.responses, extended at import)', 'process', 'noticed: arr status numeric/custom phrase incl. unlisted codes, forked baseline (seed C10-4)'),
+    ('Route.parser (one Parser per process, keeps _rule/_stream while parsing)', 'process', 'noticed: batch build0 (two threads registering routes) — defect F40'),
+    ('FilterFactory._filter_cache / FilterFactory.filters', 'process', 'noticed if entries got mixed: construct routes kinds use int and re filters and probe them; cache writes of equal values are benign'),
+    ('error_render._html_lns (template lines, filled on first use)', 'process', 'noticed: every arr runs in a fresh forked process, so the first error page is rendered under the schedule and compared with the baseline'),
+    ('body_mixin._iter_chunked locals (were module level in seed C05-5)', 'call', 'noticed: batch race1 (two chunked uploads, every single pre-emption)'),
+    ('Globals.app / request / response, module-level ombott.request/response/route', 'process', 'noticed: arr default=True; redirect/static_file findings'),
+    ('Request.__listeners__ (plain slot of the shared request object)', 'application', 'noticed: arr listen + fingerprint; finding *-listeners-shared'),
+    ('Request.config / Ombott.config / router / _route_hooks / error_handlers / _hooks', 'application', 'noticed: fingerprint of identity and sizes before/after every arr case (seed C08-6)'),
+    ('Request.__mixins_special__, _as_mixins; BaseResponse.bad_headers; Ombott.__hook_names/__hook_reversed', 'process', 'read-only after import: no case kind needed; a write would show in headerlist / hook order of every case'),
+    ('HeaderProperty descriptors, WSGIHeaderDict.cgikeys, FormsDict.re_attr_key, FieldStorage._patt, MULTIPART_BOUNDARY_PATT, end_headers_patt', 'process', 'immutable (compiled patterns, frozen sets used read-only): no cross-talk possible; parsing itself is C06/C07/C12'),
+    ('server_adapters.server_names / adapters', 'process', 'excluded: not on the request path'),
+    ('threading.local stores (_ts_props, HeaderDict._ts)', 'thread', 'the subject of the model: ops + replayed store traffic'),
+]
 
 MANIFEST = dict(
     text=('Proof: theorems C10_instance_independent and C10_nested_calls (Coq, closed under the global context) state for '
           'ALL schedules, ALL thread programs (resumptions that may branch on everything they read), all objects, threads '
           'and attributes that what a thread reads from a thread-local property of a request/response object is what '
           'that same thread last wrote to that same object (or what its __init__ put there), whatever is initialised, '
-          'copied, constructed or written on other objects or by other threads in between. '
+          'copied, constructed or written on other objects or by other threads in between; C10_dict_reads_follow_updates and '
+          'C10_copy_is_a_different_dict state the same for the dicts behind them (several reads interleaved with updates; '
+          'Request.copy / HeaderDict.copy never alias the original). '
           'C10_shared_closure_refuted records defect F13 (fixed): with the accessor that reads the closure variable of '
           'the class, [Init A; Set A x 1; Init B; Get A x] does not return 1. The hand-written model '
           '(coq/model/TsProps.v) is tied to /repo on every run by a differential correspondence on real Request / '
